@@ -203,7 +203,7 @@ func (e *c34) exec(ctx sdk.Context, op c34Op) {
 }
 
 func runC34(r *Rec, prop string) {
-	nHist, nBlocks := 6, 30
+	nHist, nBlocks := 30, 32
 	if r.Tier == "thorough" {
 		nHist, nBlocks = 60, 60
 	}
